@@ -100,11 +100,14 @@ def main():
     meta['ran'].append('git -C /repo apply patch.diff ; ./vchk check <id> --tier %s ; git -C /repo checkout -- .' % tier)
     out = os.path.join(ROOT, 'seeded', '%s-%s' % (pid, name))
     os.makedirs(out, exist_ok=True)
-    shutil.copy(patch, os.path.join(out, 'patch.diff'))
-    shutil.copy(demo, os.path.join(out, 'demo.py'))
+    same = os.path.realpath(mdir) == os.path.realpath(out)      # re-evaluating the kept copy
+    if not same:
+        shutil.copy(patch, os.path.join(out, 'patch.diff'))
+        shutil.copy(demo, os.path.join(out, 'demo.py'))
     rd = os.path.join(mdir, 'README.md')
     if os.path.exists(rd):
-        shutil.copy(rd, os.path.join(out, 'README.md'))
+        if not same:
+            shutil.copy(rd, os.path.join(out, 'README.md'))
         meta['needs_to_manifest'] = 'see README.md'
     json.dump(meta, open(os.path.join(out, 'meta.json'), 'w'), indent=1)
     print(json.dumps({k: meta[k] for k in ('property', 'name', 'confirmed', 'detected_by', 'checks')}, indent=1))
